@@ -32,7 +32,7 @@ FILES = ["a.txt", "b.html", "dir/file.txt", "dir/sub/deep.txt", "dir/.abstract",
          "ta.txt", "hing.txt"]
 
 
-def gen_members(rng):
+def gen_members(rng, long_chain=False):
     """-> list of (name str, kind 'F'|'D'|'L', data/target)"""
     ms = []
     for f in rng.sample(FILES, rng.randint(3, len(FILES))):
@@ -96,6 +96,12 @@ def gen_members(rng):
         if m[1] in "FL" and any(n.startswith(m[0] + "/") for n in names):
             continue
         ok.append(m)
+    if long_chain:
+        # a chain of twelve links, each stored before the one it points to (the worst order for a resolver that makes passes)
+        if not any(m[0].startswith("links/") for m in ok):
+            for k in range(1, 13):
+                ok.append(("links/hop%02d" % k, "L", ("hop%02d" % (k + 1)).encode() if k < 12 else b"target.txt"))
+            ok.append(("links/target.txt", "F", b"end of the chain\n"))
     return ok
 
 
@@ -161,7 +167,7 @@ def run(ctx):
         checks.append(("pathsplit", s, posixpath.split(s)))
     narch = ctx.n(30, 400)
     for ai in range(narch):
-        members = gen_members(rng)
+        members = gen_members(rng, long_chain=(ai % 5 == 1))
         tree = pyg.Tree()
         try:
             zpath = os.fsdecode(tree.path("XTREEX.zip"))
